@@ -23,6 +23,7 @@ func main() {
 	defer drv.Close()
 	runInclude(f, res, drv)
 	runPull(f, res, drv)
+	runSched(f, res, drv)
 	runBooking(f, res)
 	if err := res.Write(f.Out); err != nil {
 		lib.Fatal(err)
@@ -69,7 +70,17 @@ func replay(f lib.Flags) int {
 		if err := json.Unmarshal(raw, &c); err != nil {
 			lib.Fatal(err)
 		}
-		c.run(m)
+		for _, line := range c.run(m) {
+			fmt.Println("replay booking:", line)
+		}
+	case "sched":
+		var c schedCase
+		if err := json.Unmarshal(raw, &c); err != nil {
+			lib.Fatal(err)
+		}
+		o := c.run()
+		fmt.Printf("replay sched steps %v notes %v -> %s\n", o.Steps, o.Notes, o.answer())
+		c.monitor(m, o)
 	default:
 		fmt.Println("replay: unknown input kind", head.Kind)
 		return 2
